@@ -5,11 +5,31 @@
    handshakes (accepted / refused), first and diff flushes in ANY map iteration
    order with a write failure after ANY number of messages, reader-observed
    drops, keepalive failures, peer-side drops and Close.
-   PARTIAL: liveness (that the sender goroutine reaches "idle", TCP delivery
-   timing, hold timer / keepalive cadence) is not part of the model; the
-   theorems say what holds WHEN the connection is up and the sender is idle. *)
+   PARTIAL.  What IS proved about "converges": SAFETY (C17_stable_table_is_last_set:
+   whenever the connection is up on both sides and the sender is idle, the peer's
+   table is the last Set) and ENABLEDNESS (C17_sender_progress: from every
+   reachable state with the connection up on both sides, at most one sender step
+   -- enabled right there -- reaches such a state, with no new Set).  What is NOT
+   proved, because it is not in the model: that the Go scheduler runs the sender
+   goroutine, that TCP lets its write complete, real time (hold timer, keepalive
+   cadence).  These are observed by the harness with timeouts only.
+   ASSUMPTIONS of the model, beyond "one step = one critical section of s.mu":
+   * keys (Advertisement.Prefix.String()) are in bijection with the NLRI on the
+     wire ([nlri_inj], Proofs/SessionWireP.v).  Two advertisements whose addresses
+     differ only beyond the mask (10.0.0.1/24, 10.0.0.0/24) are two keys but one
+     route (C17_alias_example); the callers mask addresses (bgp_controller.go:
+     lbIP.Mask(m)), Set/validate do not check it;
+   * the peer applies every message it is sent.  At byte level this holds for
+     UPDATEs (C17_established_update_decodes) and for a withdraw of up to 814
+     routes (C17_withdraw_bridge); ONE diff that withdraws more gives a message
+     longer than 4096 octets which a conforming peer rejects
+     (C17_stable_table_bytes_refuted = finding withdraw-exceeds-4096-octets), so
+     C17_stable_table_is_last_set speaks about a lenient peer there.
+   Theorems marked "(by definition)" unfold a definition of the model (the
+   transcription of connect() etc.); their tie to the code is the per-run trace
+   replay, not the theorem. *)
 From Coq Require Import List NArith Bool.
-From Verif Require Import Model.Wire Model.Session Proofs.WireP Proofs.SessionP Proofs.SessionWireP.
+From Verif Require Import Model.Wire Model.Session Proofs.WireP Proofs.WireSizeP Proofs.SessionP Proofs.SessionWireP.
 Import ListNotations.
 Local Open Scope N_scope.
 
@@ -23,25 +43,73 @@ Theorem C17_abort_folds : forall c w, Inv c w ->
   pending (abort (ws w)) = None /\ teq (advertised (abort (ws w))) (desired w) /\ conn (abort (ws w)) = None.
 Proof. exact abort_folds. Qed.
 
-(* convergence: whenever a history ends with the connection up on both sides,
-   the first flush done and nothing pending, the peer's table is the last Set *)
-Theorem C17_converges : forall c es w, run c world0 es = Some w -> stable w ->
+(* SAFETY half of convergence (was named C17_converges): whenever a history ends
+   with the connection up on both sides, the first flush done and nothing
+   pending, the peer's table is the last Set.  Peer = lenient about message size,
+   see the header. *)
+Theorem C17_stable_table_is_last_set : forall c es w, run c world0 es = Some w -> stable w ->
   forall k, In k (universe c) -> ptable (wp w) k = last_set es empty k.
 Proof. exact converges_last_set. Qed.
 
-(* a peer presenting an unexpected AS number is refused and nothing changes *)
+(* ENABLEDNESS half: from every reachable state with the connection up on both
+   sides (the peer is reading), at most ONE sender step -- a complete flush,
+   enabled in that very state -- leads to a stable state, without any new Set,
+   and there the peer's table is the last Set.  Not proved (not in the model):
+   that the sender goroutine is scheduled and its TCP write completes. *)
+Theorem C17_sender_progress : forall c es w id, run c world0 es = Some w ->
+  conn (ws w) = Some id -> up (wp w) = Some id ->
+  exists es' w', (length es' <= 1)%nat /\ Forall is_full_flush es' /\
+                 run c w es' = Some w' /\ stable w' /\
+                 forall k, In k (universe c) -> ptable (wp w') k = last_set es empty k.
+Proof. exact sender_progress_reachable. Qed.
+
+(* byte level of the model's [MWdr ks]: a conforming peer reads the one
+   sendWithdraw message back exactly when it is <= 4096 octets, guaranteed up to
+   814 routes per diff ... *)
+Theorem C17_withdraw_bridge : forall (kp : key -> prefix) (ks : list key) bs w4,
+  (forall k, wf_prefix (kp k)) -> enc_withdraw (map kp ks) = Some bs ->
+  (dec_msg w4 bs = Some (intended_withdraw (map kp ks)) <-> len bs <= 4096) /\
+  (len ks <= 814 -> len bs <= 4096).
+Proof. exact withdraw_bridge. Qed.
+
+(* ... and beyond that C17_stable_table_is_last_set is FALSE for a conforming
+   peer (finding withdraw-exceeds-4096-octets): a reachable state whose next
+   flush is one withdraw of 815 host routes that the RFC decoder rejects *)
+Theorem C17_stable_table_bytes_refuted :
+  exists w ks bs, run cfg815 world0 es815 = Some w /\
+    emitted cfg815 w (EDiffFlush keys815 keys815 None) = [MWdr ks] /\ len ks = 815 /\
+    Forall wf_prefix (map host_prefix ks) /\
+    enc_withdraw (map host_prefix ks) = Some bs /\ 4096 < len bs /\ dec_msg true bs = None.
+Proof. exact stable_table_bytes_refuted. Qed.
+
+(* keys vs NLRI: two different keys that are one route on the wire (the model
+   assumes this does not happen, [nlri_inj]) *)
+Theorem C17_alias_example :
+  let p1 := {| p_ip := [10; 0; 0; 1]; p_len := 24 |} in
+  let p2 := {| p_ip := [10; 0; 0; 0]; p_len := 24 |} in
+  p1 <> p2 /\ wf_prefix p1 /\ wf_prefix p2 /\
+  nlri_network (intended_nlri p1) = nlri_network (intended_nlri p2) /\ enc_prefix p1 = enc_prefix p2.
+Proof. exact alias_example. Qed.
+
+(* (by definition: [step] admits a handshake only with acc = [hs_accept], which
+   starts with asn =? peer_asn)  a peer presenting an unexpected AS number is
+   refused and nothing changes *)
 Theorem C17_wrong_asn_refused : forall c w id asn fb acc w',
   step c w (EHandshake id asn fb acc) = Some w' -> asn <> peer_asn c -> acc = false /\ w' = w.
 Proof. exact wrong_asn_refused. Qed.
 
-(* after Close no step writes a message or dials, the session stays closed and
-   disconnected, and the peer's table is not touched by the session *)
+(* after Close no step writes a message, the session stays closed and
+   disconnected, and the peer's table is not touched by the session (needs the
+   invariant: closed -> no connection); the conjunct [dials e = false] is by
+   definition: [step] returns None for handshake / dial events when closed *)
 Theorem C17_closed_silent : forall c w e w', Inv c w -> closed (ws w) = true -> step c w e = Some w' ->
   closed (ws w') = true /\ conn (ws w') = None /\ emitted c w e = [] /\ dials e = false /\
   wp w' = match e with EPeerDrop => wp w' | _ => wp w end.
 Proof. exact closed_silent. Qed.
 
-(* ... over all interleavings of Close with everything else, including
+(* (the conjunct about [dials] is by definition of [step]; [run_emitted = []] and
+   closed/conn are not)
+   ... over all interleavings of Close with everything else, including
    handshake steps attempted after it: once the Close step has happened nothing
    is written and nothing dials (connect's dial + OPEN exchange + accepting
    KEEPALIVE is ONE critical section, so it is entirely before or entirely
@@ -53,7 +121,10 @@ Theorem C17_no_message_after_close : forall c es1 es2 w,
              closed (ws w) = true /\ conn (ws w) = None.
 Proof. exact no_message_after_close. Qed.
 
-(* the OPEN the session writes carries the CONFIGURED AS number and hold time:
+(* (C17_session_hold_spec is by definition of [session_hold] / [keepalive_period],
+   the transcription of NewSession / sendKeepalives, tied to the code by TOpen /
+   TKeepalive in the replay)
+   the OPEN the session writes carries the CONFIGURED AS number and hold time:
    90 s only for an unset (nil) hold time; an explicit 0 is sent as 0 and there
    is then no keepalive timer *)
 Theorem C17_session_open_decodes : forall c rid bs w4,
@@ -90,13 +161,24 @@ Theorem C17_set_last_wins : forall l x,
   map_of l x = match find (fun p => fst p =? x) (rev l) with Some p => Some (snd p) | None => None end.
 Proof. exact set_last_wins. Qed.
 
-(* every message a step writes is justified by the set the sender is moving
-   to: UPDATE k v only if that set has k -> v, withdraw k only if it lacks k
-   and k was advertised (this is what the trace replay checks per message) *)
+(* every message a step writes is justified by the set the sender is moving to
+   ([new_of w]: the pending set, else advertised) against the table the peer holds
+   ([adv_of w e]: advertised for a diff flush, empty for the first flush of a
+   connection): UPDATE k v only if the new set has k -> v; withdraw only of keys
+   the new set lacks AND that table has (this is what the trace replay checks) *)
 Theorem C17_emitted_justified : forall c w e m, In m (emitted c w e) ->
-  exists adv new, justified adv new m /\
-    (match pending (ws w) with Some p => new = p | None => new = advertised (ws w) end).
-Proof. exact emitted_justified. Qed.
+  justified (adv_of w e) (new_of w) m.
+Proof. exact emitted_justified_strong. Qed.
+
+(* ... and in a reachable state that new set IS the last Set: an emitted UPDATE
+   carries the attributes last requested for its prefix; a withdrawn prefix is
+   absent from the last Set and present in what the peer was sent *)
+Theorem C17_emitted_is_last_set : forall c es w e m, run c world0 es = Some w -> In m (emitted c w e) ->
+  match m with
+  | MUpd k v => last_set es empty k = Some v
+  | MWdr ks => ks <> [] /\ forall k, In k ks -> last_set es empty k = None /\ adv_of w e k <> None
+  end.
+Proof. exact emitted_is_last_set. Qed.
 
 (* the peer applying a complete diff flush to the old table obtains the new one *)
 Theorem C17_diff_flush_exact : forall adv new o1 o2 t x,
@@ -112,7 +194,9 @@ Theorem C17_established_can_encode : forall c asn fb nh a,
   enc_update (my_asn c) (ibgp_of c) fb nh a <> None.
 Proof. exact established_can_encode. Qed.
 
-(* the 4-octet-AS flag follows the CONNECTION: an accepted handshake sets it to
+(* (C17_handshake_sets_capability is by definition of [step]; the invariant that
+   follows from it, C17_flush_uses_connection_capability, is not)
+   the 4-octet-AS flag follows the CONNECTION: an accepted handshake sets it to
    what this OPEN announced, and in every reachable state with the connection
    up the width a flush encodes with is the width the peer parses with *)
 Theorem C17_handshake_sets_capability : forall c w id asn fb w',
@@ -158,7 +242,8 @@ Example C17_nonvacuous :
              ESet [(0, 2); (2, 1); (2, 3)]; EDiffFlush [2; 0] [0; 1] (Some 1%nat); EReaderDrop 1;
              EPeerDrop; EHandshake 2 64999 false true; EFirstFlush [0; 2] None] in
   match run c world0 es with
-  | Some w => map (ptable (wp w)) [0; 1; 2] = [Some 2; None; Some 3] /\ conn (ws w) = Some 2 /\ pending (ws w) = None
+  | Some w => map (ptable (wp w)) [0; 1; 2] = [Some 2; None; Some 3] /\ conn (ws w) = Some 2 /\ pending (ws w) = None /\
+              up (wp w) = Some 2 /\ synced (ws w) = true
   | None => False
   end.
 Proof. vm_compute. repeat split. Qed.
